@@ -72,6 +72,7 @@ func runC11(c *Ctx) {
 	c.r111()
 	c.r114()
 	c.r115()
+	c.r118()
 	// a data URI rewritten inside url(…) must still be one URL token afterwards: same rule as R09.8
 	c.alsoUnder(map[string]string{"R09.8": "R11.6", "R09.9": "R11.7"}, nil, func() { c.r098() })
 }
@@ -789,4 +790,56 @@ func (c *Ctx) checkMediaType(rule string, s *embedSite) {
 		return
 	}
 	c.R.Check(len(bad) == 0, rule, label, c.pos(s.call), fmt.Sprintf("%d assignment(s) agree with the documented defaults", n), strings.Join(bad, "; "))
+}
+
+// R11.8: the payload given to the embedded minifier is the payload the data URI denotes.
+func (c *Ctx) r118() {
+	const rule = "R11.8"
+	c.R.Rule(rule, "minify.DataURI obtains the payload from parse.DataURI of the pinned dependency, which decodes a non-base64 payload with parse.DecodeURL. A data URI is a URL (RFC 2397, RFC 3986): only %XX triplets are escapes; `+` is a literal plus sign (it stands for a space only in application/x-www-form-urlencoded data). The rule reads the source of parse.DecodeURL: every store into the decoded slice is the value of a %XX triplet — no other byte is mapped to a different one. (`<script src=\"data:application/javascript,x=a+b\">` → `…,x=a%20b`: the embedded program is `x=a b`)")
+	dep := c.P.Dep(load.ParseMod)
+	if dep == nil {
+		c.R.Unres(rule, "parse.DecodeURL", "-", "dependency package not loaded")
+		return
+	}
+	fd := load.Func(dep, "DecodeURL")
+	if fd == nil {
+		c.R.Unres(rule, "parse.DecodeURL", "-", "function not found in the dependency")
+		return
+	}
+	info := dep.TypesInfo
+	// the data URI path really uses it
+	uses := false
+	if du := load.Func(dep, "DataURI"); du != nil {
+		uses = len(findCalls(info, du.Body, false, load.ParseMod+".DecodeURL")) > 0
+	}
+	if !uses {
+		c.R.OK(rule, "parse.DataURI/decoder", "-", "parse.DataURI no longer decodes through parse.DecodeURL: nothing to check here")
+		return
+	}
+	g := c.graph(dep, fd)
+	n := 0
+	for _, y := range g.Nodes {
+		as, ok := y.Stmt.(*ast.AssignStmt)
+		if !ok || y.Kind != flow.KStmt || len(as.Lhs) != 1 || len(as.Rhs) != 1 {
+			continue
+		}
+		if _, isIx := as.Lhs[0].(*ast.IndexExpr); !isIx {
+			continue
+		}
+		n++
+		// a constant byte stored under a comparison of the same element with another constant: a byte-for-byte mapping
+		tv, isConst := info.Types[as.Rhs[0]]
+		if !isConst || tv.Value == nil {
+			c.R.OK(rule, fmt.Sprintf("parse.DecodeURL/store %s#%d", stmtText(as), n), c.pos(as), "computed from the escape's hex digits")
+			continue
+		}
+		from := ""
+		for _, f := range g.DomFacts(y) {
+			if f.Value && f.Test.Kind == flow.KCond && strings.Contains(nospace(str(f.Test.Expr)), nospace(str(as.Lhs[0]))+"==") {
+				from = str(f.Test.Expr)
+			}
+		}
+		c.R.Bad(rule, fmt.Sprintf("parse.DecodeURL/store %s#%d", stmtText(as), n), c.pos(as), "the decoder replaces a literal byte ("+from+") by another one ("+str(as.Rhs[0])+"): in a data URI that byte stands for itself, so the payload the embedded minifier sees — and the one written back — is not the payload of the input")
+	}
+	c.R.Floor(rule, "stores into the decoded slice", n, 1)
 }
